@@ -1541,7 +1541,10 @@ fn world_b_disconnect_reachable(property: &str, scenario: &str, seed: u64, run: 
         // requests, its acknowledgements, both or neither. Both sides stay reachable, so both
         // attempts have to end in Disconnect.
         let mut r = Rng::keyed(&[seed, run, 0xc9055]);
-        if r.chance(0.35) {
+        // (not with the short silence timeouts: when the requests themselves are lost for
+        // longer than the other side's timeout, that side rightly gives the connection up and
+        // the caller's attempt rightly ends in Error(Timeout))
+        if r.chance(0.35) && !short_timeouts {
             let (other, other_to) = if caller_is_client { (0usize, Some(c)) } else { (c, None) };
             let t_other = (t_call + r.below(2 * latency + 30_000)).saturating_sub(r.below(latency + 1));
             plan.push(t_other, 0x6000_0001, if r.chance(0.5) { Op::Disconnect { ep: other, to: other_to } } else { Op::DisconnectNow { ep: other, to: other_to } });
